@@ -85,7 +85,53 @@ def _meta(repo):
     return res["meta"]
 
 
-def gen_text(raw_steps, line, meta):
+def detect_variant(repo):
+    """Three syntactic facts about the anchored code (which of the proposed repairs it contains).  Only a hint
+    that selects the model variant: a wrong hint makes the correspondence fail, it cannot make it pass."""
+    import ast
+
+    def tree(rel):
+        return ast.parse(open(os.path.join(repo, rel)).read())
+
+    def func(t, name, cls=None, pred=lambda f: True):
+        for node in ast.walk(t):
+            if isinstance(node, ast.ClassDef) and cls and node.name == cls:
+                for f in node.body:
+                    if isinstance(f, ast.FunctionDef) and f.name == name and pred(f):
+                        return f
+            if cls is None and isinstance(node, ast.FunctionDef) and node.name == name and pred(node):
+                return node
+        return None
+
+    mig = func(tree("autofit/database/migration/migration.py"), "migrate", "Migrator")
+    v_commit = bool(mig) and any(isinstance(n, ast.Call) and isinstance(n.func, ast.Attribute) and n.func.attr == "commit"
+                                for n in ast.walk(mig))
+    is_setter = lambda f: any(isinstance(d, ast.Attribute) and d.attr == "setter" for d in f.decorator_list)
+    setter = func(tree("autofit/database/migration/session_wrapper.py"), "revision_id", "SessionWrapper", is_setter)
+    v_insert = bool(setter) and any(isinstance(n, ast.Constant) and isinstance(n.value, str) and "INSERT INTO revision" in n.value
+                                    for n in ast.walk(setter))
+    od = func(tree("autofit/database/__init__.py"), "open_database")
+    v_stamp = bool(od) and any(isinstance(n, ast.Assign) and any(isinstance(t, ast.Attribute) and t.attr == "revision_id" for t in n.targets)
+                               for n in ast.walk(od))
+    return [v_commit, v_insert, v_stamp]
+
+
+def exact_upto(parsed, base):
+    """Smallest k such that opening an UNSTAMPED file at schema revision k makes a statement of an already
+    applied step take effect again (reference semantics); len(steps)+1 when there is none."""
+    n = len(parsed)
+    for k in range(n + 1):
+        cur = {t: list(c) for t, c in base}
+        for st in parsed[:k]:
+            for x in st:
+                D.apply_stmt(cur, x)
+        took = [(i, j) for i, st in enumerate(parsed) for j, x in enumerate(st) if D.apply_stmt(cur, x)]
+        if took != [(i, j) for i, st in enumerate(parsed) for j in range(len(st)) if i >= k]:
+            return k
+    return n + 1
+
+
+def gen_text(raw_steps, line, meta, variant=(False, False, False)):
     parsed = []
     for i, step in enumerate(raw_steps):
         if not step:
@@ -113,8 +159,9 @@ def gen_text(raw_steps, line, meta):
         return [(t, c) for t, cols in orm for c in cols if t not in cur or c not in cur[t]]
     orm_gaps = gaps_of(base)
     art_gaps = gaps_of(art_schema) if art_schema else []
+    upto = exact_upto(parsed, base)
     c_gaps = lambda g: clist(["(%s, %s)" % (cstr(t), cstr(c)) for t, c in g])
-    digest = hashlib.sha1(json.dumps([raw_steps, orm, art_schema], sort_keys=True).encode()).hexdigest()
+    digest = hashlib.sha1(json.dumps([raw_steps, orm, art_schema, list(variant)], sort_keys=True).encode()).hexdigest()
     lines = [
         "(* GENERATED by harness/vcheck/c19.py on every run -- do not edit.",
         "   steps      : literal `steps = [Step(...), ...]` of %s (line %d), each statement with its parse" % (STEPS_PY, line),
@@ -143,6 +190,13 @@ def gen_text(raw_steps, line, meta):
         "",
         "Definition artifact_gaps : list (string * string) :=\n  %s." % c_gaps(art_gaps),
         "",
+        "(* unstamped files at schema revision k < exact_upto are migrated by exactly the missing steps; at",
+        "   k = exact_upto a statement of an applied step takes effect again (length steps + 1: never) *)",
+        "Definition exact_upto : nat := %d." % upto,
+        "",
+        "(* which proposed repairs the anchored code contains (syntactic reading of migrate / setter / open_database) *)",
+        "Definition code_variant : variant := mkvariant %s %s %s." % tuple(cbool(b) for b in variant),
+        "",
         "Definition src_digest : string := %s." % cstr(digest),
         "",
     ]
@@ -151,7 +205,9 @@ def gen_text(raw_steps, line, meta):
             "artifact": {"source": json.dumps(art_schema), "line": 0}}
     info["orm_gaps"] = {"source": json.dumps(orm_gaps), "line": 0}
     info["artifact_gaps"] = {"source": json.dumps(art_gaps), "line": 0}
-    return "\n".join(lines), info, parsed, orm, base, art_schema
+    info["exact_upto"] = {"source": str(upto), "line": 0}
+    info["code_variant"] = {"source": "commit=%s insert=%s stamp_new=%s" % tuple(variant), "line": 0}
+    return "\n".join(lines), info, parsed, orm, base, art_schema, upto
 
 
 def regenerate(repo=None, meta=None):
@@ -161,12 +217,17 @@ def regenerate(repo=None, meta=None):
     except (D.DDLError, OSError, SyntaxError) as e:
         raise TranslationError(str(e))
     meta = meta or _meta(repo)
-    text, info, parsed, orm, base, art = gen_text(raw_steps, line, meta)
+    try:
+        variant = detect_variant(repo)
+    except (OSError, SyntaxError) as e:
+        raise TranslationError("cannot read the anchored migration code: %s" % e)
+    text, info, parsed, orm, base, art, upto = gen_text(raw_steps, line, meta, variant)
     old = open(GEN).read() if os.path.exists(GEN) else None
     if old != text:
         with open(GEN, "w") as f:
             f.write(text)
-    return {"info": info, "raw": raw_steps, "parsed": parsed, "orm": orm, "base": base, "artifact": art, "meta": meta}
+    return {"info": info, "raw": raw_steps, "parsed": parsed, "orm": orm, "base": base, "artifact": art, "meta": meta,
+            "exact_upto": upto, "variant": variant}
 
 
 # ---------------------------------------------------------------------------
@@ -356,8 +417,9 @@ def valid_start(c):
     return rev in ("notable", "empty") or rev == "stamp:%d" % c["k"]
 
 
-def case_labels(c, n):
-    """Labels computed from the abstract case only."""
+def case_labels(c, n, upto=None):
+    """Labels computed from the abstract case only (upto: static fact about the step list, see exact_upto)."""
+    upto = n if upto is None else upto
     lab = set()
     if c["kind"] != "history":
         return lab
@@ -366,8 +428,8 @@ def case_labels(c, n):
         lab.add("named_instance-table-created-by-step")
         if c["base"] == "artifact":
             lab.add("artifact-file")
-    if fresh or (c["k"] == n and c["rev"] in ("notable", "empty")):
-        lab.add("unstamped-at-current-schema")
+    if fresh or (c["k"] >= upto and c["rev"] in ("notable", "empty")):
+        lab.add("unstamped-past-rename")
     if not fresh and c["rev"] == "empty":
         lab.add("empty-revision-table")
     # first session that has to migrate (for a fresh file: the first reopen)
@@ -388,7 +450,7 @@ def oracle_history(c, r, env):
     steps, orm, latest = env["raw"], env["orm"], env["latest"]
     n = len(steps)
     out = []
-    labels = case_labels(c, n)
+    labels = case_labels(c, n, env.get("exact_upto"))
     fresh = c["start"] == "fresh"
     valid = valid_start(c)
     k = n if fresh else c["k"]
@@ -399,7 +461,7 @@ def oracle_history(c, r, env):
     for si, (s, sc) in enumerate(zip(r["sessions"], c["sessions"])):
         tr = s["trace"]
         step_ev = [(e[1], e[2], e[3]) for e in tr if e[0] == "step"]
-        side = [e[0] for e in tr if e[0] in ("create_rev", "insert_null", "update_rev", "create_all")]
+        side = [e[0] for e in tr if e[0] in ("create_rev", "insert_null", "insert_rev", "update_rev", "create_all")]
         creating = fresh and si == 0
         # (d) a database stamped with the current revision: the open changes nothing and executes nothing
         if disk["rev"] == [latest]:
@@ -437,7 +499,7 @@ def oracle_history(c, r, env):
                 # (b) exactly the missing steps, each once, in order
                 succ = [(i, j) for i, j, ok in step_ev if ok]
                 if succ != missing_stmts:
-                    cl = ["unstamped-at-current-schema"] if "unstamped-at-current-schema" in labels else []
+                    cl = ["unstamped-past-rename"] if "unstamped-past-rename" in labels else []
                     out.append(("session %d: statements that took effect %s, missing steps are %s" % (si, succ, missing_stmts), cl))
                 if c["rev"].startswith("stamp:") and not fresh and [(i, j) for i, j, _ in step_ev] != missing_stmts:
                     out.append(("session %d: stamped revision %d, attempted %s" % (si, k, [(i, j) for i, j, _ in step_ev]), []))
@@ -492,7 +554,7 @@ def c_ev(e, real=True):
     if k == "step":
         return "%s %d %d %s" % ("R" if real else "T ss", e[1], e[2], cbool(e[3]))
     return {"select_rev": "ESelectRev %s", "select_one": "ESelectOne %s", "create_rev": "ECreateRev%.0s",
-            "insert_null": "EInsertNull%.0s", "update_rev": "EUpdateRev %s", "create_all": "ECreateAll%.0s",
+            "insert_null": "EInsertNull%.0s", "update_rev": "EUpdateRev %s", "create_all": "ECreateAll%.0s", "insert_rev": "EInsertRev%.0s",
             "other": "EStmt \"?other\" %s"}[k] % cbool(e[3])
 
 
